@@ -998,8 +998,8 @@ class Gen:
 
 class C01(PropBase):
     pid = "C01"
-    coq_dirs = ["Base", "C01"]
-    translators = ["c01_sites.py"]
+    coq_dirs = ["Base", "C08", "C01"]       # C08: the range-map model the lookups are built on; C02/Layout + Gen/Layouts are imported (their own gates scan them)
+    translators = ["c01_sites.py", "format_layouts.py"]
     bins = ["c01"]
     impl_timeout = 240
     model_timeout = 1800     # thorough tier on a loaded machine: a model shard (9 000 cases) was seen to exceed the default 900 s
